@@ -199,6 +199,9 @@ func (c *cluster) onAdminTaskDone(pt *pendingTask, err error, res interface{}) {
 	case "cfg":
 		if err == nil {
 			c.stats.class("cfg-ok")
+			if n := c.nodes[pt.nid]; n != nil && n.status == nodeUp && n.inc == pt.inc && n.sh.xferPrev && n.sh.xferNow && pt.submit == c.stepNo {
+				c.fail("transfer", "accepted-during-transfer", "membership change submitted to node %d and completed successfully while a leadership transfer was in progress there", pt.nid)
+			}
 		} else {
 			c.stats.class("cfg-err")
 		}
